@@ -360,6 +360,20 @@ def structured_cases(chk):
     return out
 
 
+def long_source_cases(chk):
+    """files of several hundred lines (what a traceback frame deep in a module shows): ranges inside, straddling the end and wholly
+    beyond it, far from line 1 - code that treats "a range deep in a big file" specially lives here"""
+    out = []
+    for n in chk.pick([530, 640], [530, 640, 1100, 2100]):
+        for final_nl in (False, True):
+            src = "\n".join("v%d = %d" % (i, i) for i in range(1, n + 1)) + ("\n" if final_nl else "")
+            for lx in ("python", "text"):
+                for lr in [(n + 40, n + 50), (n - 1, n + 6), (n - 12, n - 9), (520, 523), (1, 2)]:
+                    out.append(dict(src=src, lexer=lx, tab_size=4, word_wrap=False, code_width=None, width=60, highlight=[], indent_guides=False,
+                                    theme="ansi_dark", color=None, line_numbers=True, line_range=lr, start_line=1))
+    return out
+
+
 # ---------------------------------------------------------------------------------------------
 # Traceback cases: generated modules that raise at a chosen line
 
@@ -731,7 +745,7 @@ def run(chk: Check):
             m1 = m1_pool.submit(lambda: None)
         else:
             m1 = m1_pool.submit(run_m1, chk)
-        syn_cases = enumerated_cases(chk) + structured_cases(chk)
+        syn_cases = enumerated_cases(chk) + structured_cases(chk) + long_source_cases(chk)
         for _ in range(chk.pick(2500, 60000)):
             src = random_source(chk.rng)
             syn_cases.append(dict(src=src, lexer=chk.rng.choice(LEXERS + LEXERS + MORE_LEXERS), **random_options(chk.rng, src)))
